@@ -77,6 +77,12 @@ func (mlr *multiLineReader) Flush() {
 // FlushAll is like Flush but including the last unfinished line, to be done before shutdown
 func (mlr *multiLineReader) FlushAll() {
 	record := mlr.buffer[:mlr.offsetAppend]
+	// if the last unfinished line is the start of another record, end the previous record before it, or it would
+	// be appended to the previous record as if it was one of its lines
+	if n := bytes.LastIndexByte(record, '\n'); n != -1 && n+1 < len(record) && mlr.testRecordStart(record[n+1:]) {
+		mlr.Flush()
+		record = mlr.buffer[:mlr.offsetAppend]
+	}
 	if len(record) > 0 {
 		// cut trailing newline
 		if record[len(record)-1] == '\n' {
